@@ -118,6 +118,46 @@ Theorem C14_client_same_rule_live : forall I T s evs,
 Proof. exact hb_cli_live_never_closed. Qed.
 Print Assumptions C14_client_same_rule_live.
 
+(* a server that falls silent right after LoginResp — before its first Pong — is detected all the same:
+   lastPong starts at the creation instant of the Control (hb_cli_init), so the bound counts from the login *)
+Theorem C14_server_silent_from_start_detected : forall I T g start execs evs,
+  I > 0 -> T > 0 -> 0 <= g ->
+  Forall (fun e => 0 <= e <= g) execs ->
+  hc_tick_times evs = until_ticks hb_period start execs ->
+  (forall t, ~ In (CPong t) evs) ->
+  (exists t, In t (hc_tick_times evs) /\ start + T * hb_sec < t) ->
+  exists e1 now e2,
+    evs = e1 ++ CTick now :: e2 /\
+    start + T * hb_sec < now <= start + T * hb_sec + hb_period + g /\
+    hc_closed (hb_cli_run I T (hb_cli_init start) (e1 ++ [CTick now])) = true /\
+    hc_closed (hb_cli_run I T (hb_cli_init start) evs) = true.
+Proof. exact hb_cli_silent_from_start. Qed.
+Print Assumptions C14_server_silent_from_start_detected.
+
+(* the same for a client that never sends a single valid Ping after its login *)
+Theorem C14_client_silent_from_start_detected : forall T g start execs evs,
+  T > 0 -> 0 <= g ->
+  Forall (fun e => 0 <= e <= g) execs ->
+  hb_tick_times evs = until_ticks hb_period start execs ->
+  (forall t, ~ In (HValidPing t) evs) ->
+  (exists t, In t (hb_tick_times evs) /\ start + T * hb_sec < t) ->
+  exists e1 now e2,
+    evs = e1 ++ HTick now :: e2 /\
+    start + T * hb_sec < now <= start + T * hb_sec + hb_period + g /\
+    hs_closed (hb_srv_run T (hb_srv_init start) (e1 ++ [HTick now])) = true /\
+    hs_closed (hb_srv_run T (hb_srv_init start) evs) = true.
+Proof. exact hb_srv_silent_from_start. Qed.
+Print Assumptions C14_client_silent_from_start_detected.
+
+(* the initial value and the shape of the test are read from the source by t14: both NewControl store
+   time.Now() into lastPing / lastPong, and each 1 s watchdog callback consists of exactly the strict
+   timeout test against that value followed by the close *)
+Theorem C14_watchdog_init_and_test_in_source :
+  gen_cli_lastpong_init_at_creation = true /\ gen_srv_lastping_init_at_creation = true /\
+  gen_cli_watchdog_is_plain_timeout_test = true /\ gen_srv_watchdog_is_plain_timeout_test = true.
+Proof. repeat split; reflexivity. Qed.
+Print Assumptions C14_watchdog_init_and_test_in_source.
+
 Theorem C14_pong_error_closes_session : forall I T s e1 e2,
   hc_closed (hb_cli_run I T s (e1 ++ CPongErr :: e2)) = true.
 Proof. exact hb_cli_pong_err_closes. Qed.
@@ -221,6 +261,23 @@ Theorem C14_relogin_resends_all : forall cfg ef evs,
     (forall n c, In (n, c) (rl_cfg st) -> exists c', In (n, c') m).
 Proof. exact (fun cfg ef => rl_relogin_resends_all cfg ef gen_relogin_exit). Qed.
 Print Assumptions C14_relogin_resends_all.
+
+(* a reload that arrives while the client is retrying (session lost, logins failing) is what the next
+   session registers: exactly the CURRENT configured set, not the one at the time the connection was lost;
+   t14 checks that svr.proxyCfgs / visitorCfgs are read inside the retried login closure *)
+Theorem C14_reload_while_retrying_is_honoured : forall cfg ef pre cfgs' fails,
+  Forall (fun e => e = RLoginFail \/ e = RLoginRefused) fails ->
+  let st := rl_run (rl_init cfg ef gen_relogin_exit) (pre ++ RReload cfgs' :: fails) in
+  rl_phase_of st = PLogin ->
+  exists m, rl_ctl (rl_step st RLoginOk) = Some m /\
+            rl_history (rl_step st RLoginOk) = m :: rl_history st /\
+            forall n c, In (n, c) m <-> rl_lookup n cfgs' = Some c.
+Proof. exact (fun cfg ef => rl_reload_while_retrying cfg ef gen_relogin_exit). Qed.
+Print Assumptions C14_reload_while_retrying_is_honoured.
+
+Theorem C14_config_read_at_login_time_in_source : gen_cfg_read_inside_login_closure = true.
+Proof. reflexivity. Qed.
+Print Assumptions C14_config_read_at_login_time_in_source.
 
 (* Whatever loginFailExit says: once one login has succeeded, no sequence of lost sessions, failed or
    REFUSED logins and reloads — as long as nobody stops the service — makes the loop halt: the client
